@@ -335,23 +335,23 @@ fn find_nth_grid<const OFF: usize, const LEN: usize, const N: usize, const START
     }
     assert!(r == expect);
     kani::cover!(NTH == 0 || START == LEN || (r == LEN && !done));
-    kani::cover!(NTH == 0 || START == LEN || (done && r < LEN));
-    kani::cover!(NTH == 0 || START == LEN || (done && r == LEN));
+    kani::cover!(NTH == 0 || NTH >= LEN - START || (done && r < LEN));
+    kani::cover!(NTH == 0 || NTH > LEN - START || (done && r == LEN));
 }
 // Contract (C19) find_nth_set_bit_position(start, n): n == 0 gives start; otherwise one past the position
 // of the n-th true value at or after `start`, or len() when fewer than n true values remain
 // (contents symbolic; start <= len and n concrete per instance).
-// @unit name=bb_find_nth_3_9_2_1 props=C19 kind=bounded bound=grid_(offset,len,start,n)=(3,9,2,1) fns=BooleanBuffer::find_nth_set_bit_position tier=thorough timeout=1500 note=not_confirmed_under_load
+// @unit name=bb_find_nth_3_9_2_1 props=C19 kind=bounded bound=grid_(offset,len,start,n)=(3,9,2,1) fns=BooleanBuffer::find_nth_set_bit_position timeout=1500
 inst!(bb_find_nth_3_9_2_1, 12, find_nth_grid::<3, 9, 2, 2, 1>());
-// @unit name=bb_find_nth_60_8_1_2 props=C19 kind=bounded bound=grid_(offset,len,start,n)=(60,8,1,2) fns=BooleanBuffer::find_nth_set_bit_position tier=thorough timeout=1500 note=not_confirmed_under_load
+// @unit name=bb_find_nth_60_8_1_2 props=C19 kind=bounded bound=grid_(offset,len,start,n)=(60,8,1,2) fns=BooleanBuffer::find_nth_set_bit_position tier=thorough timeout=1500
 inst!(bb_find_nth_60_8_1_2, 11, find_nth_grid::<60, 8, 9, 1, 2>());
-// @unit name=bb_find_nth_0_8_0_3 props=C19 kind=bounded bound=grid_(offset,len,start,n)=(0,8,0,3) fns=BooleanBuffer::find_nth_set_bit_position tier=thorough timeout=1500 note=not_confirmed_under_load
+// @unit name=bb_find_nth_0_8_0_3 props=C19 kind=bounded bound=grid_(offset,len,start,n)=(0,8,0,3) fns=BooleanBuffer::find_nth_set_bit_position tier=thorough timeout=1500
 inst!(bb_find_nth_0_8_0_3, 11, find_nth_grid::<0, 8, 1, 0, 3>());
-// @unit name=bb_find_nth_5_12_12_1 props=C19 kind=bounded bound=grid_(offset,len,start,n)=(5,12,12,1) fns=BooleanBuffer::find_nth_set_bit_position tier=thorough timeout=1500 note=not_confirmed_under_load
+// @unit name=bb_find_nth_5_12_12_1 props=C19 kind=bounded bound=grid_(offset,len,start,n)=(5,12,12,1) fns=BooleanBuffer::find_nth_set_bit_position tier=thorough timeout=1500
 inst!(bb_find_nth_5_12_12_1, 15, find_nth_grid::<5, 12, 3, 12, 1>());
-// @unit name=bb_find_nth_3_9_4_0 props=C19 kind=bounded bound=grid_(offset,len,start,n)=(3,9,4,0) fns=BooleanBuffer::find_nth_set_bit_position tier=thorough timeout=1500 note=not_confirmed_under_load
+// @unit name=bb_find_nth_3_9_4_0 props=C19 kind=bounded bound=grid_(offset,len,start,n)=(3,9,4,0) fns=BooleanBuffer::find_nth_set_bit_position tier=thorough timeout=1500
 inst!(bb_find_nth_3_9_4_0, 12, find_nth_grid::<3, 9, 2, 4, 0>());
-// @unit name=bb_find_nth_61_6_0_6 props=C19 kind=bounded bound=grid_(offset,len,start,n)=(61,6,0,6) fns=BooleanBuffer::find_nth_set_bit_position tier=thorough timeout=1500 note=not_confirmed_under_load
+// @unit name=bb_find_nth_61_6_0_6 props=C19 kind=bounded bound=grid_(offset,len,start,n)=(61,6,0,6) fns=BooleanBuffer::find_nth_set_bit_position tier=thorough timeout=1500
 inst!(bb_find_nth_61_6_0_6, 9, find_nth_grid::<61, 6, 9, 0, 6>());
 
 // =============================================================================================
@@ -396,7 +396,7 @@ inst!(bb_unary_64_65_17_0, 10, unary_grid::<64, 65, 17, 0>());
 inst!(bb_unary_3_70_11_1, 10, unary_grid::<3, 70, 11, 1>());
 // @unit name=bb_unary_5_120_19_3 props=C19 kind=bounded bound=grid_(offset,len,bytes,ptr_skew)=(5,120,19,3)_path=unaligned_chunks fns=BooleanBuffer::from_bitwise_unary_op tier=thorough timeout=240
 inst!(bb_unary_5_120_19_3, 10, unary_grid::<5, 120, 19, 3>());
-// @unit name=bb_unary_0_0_1_0 props=C19 kind=bounded bound=grid_(offset,len,bytes,ptr_skew)=(0,0,1,0)_path=aligned_exact fns=BooleanBuffer::from_bitwise_unary_op tier=thorough timeout=240 note=not_confirmed_under_load
+// @unit name=bb_unary_0_0_1_0 props=C19 kind=bounded bound=grid_(offset,len,bytes,ptr_skew)=(0,0,1,0)_path=aligned_exact fns=BooleanBuffer::from_bitwise_unary_op tier=thorough timeout=240
 inst!(bb_unary_0_0_1_0, 10, unary_grid::<0, 0, 1, 0>());
 // @unit name=bb_unary_7_1_1_0 props=C19 kind=bounded bound=grid_(offset,len,bytes,ptr_skew)=(7,1,1,0)_path=aligned_suffix fns=BooleanBuffer::from_bitwise_unary_op tier=thorough timeout=240
 inst!(bb_unary_7_1_1_0, 10, unary_grid::<7, 1, 1, 0>());
@@ -500,7 +500,7 @@ inst!(bb_bin_1_66_128_17_25_0_0, 10, bin_grid::<1, 66, 128, 17, 25, 0, 0>());
 inst!(bb_bin_63_127_2_9_17_0_0, 10, bin_grid::<63, 127, 2, 9, 17, 0, 0>());
 // @unit name=bb_bin_64_0_63_16_8_0_0 props=C19 kind=bounded bound=grid_(ol,or,len,bytes_l,bytes_r,skew_l,skew_r)=(64,0,63,16,8,0,0)_path=aligned_exact fns=BooleanBuffer::from_bitwise_binary_op tier=thorough timeout=240
 inst!(bb_bin_64_0_63_16_8_0_0, 10, bin_grid::<64, 0, 63, 16, 8, 0, 0>());
-// @unit name=bb_bin_0_0_0_1_1_0_0 props=C19 kind=bounded bound=grid_(ol,or,len,bytes_l,bytes_r,skew_l,skew_r)=(0,0,0,1,1,0,0)_path=aligned_exact fns=BooleanBuffer::from_bitwise_binary_op tier=thorough timeout=240 note=not_confirmed_under_load
+// @unit name=bb_bin_0_0_0_1_1_0_0 props=C19 kind=bounded bound=grid_(ol,or,len,bytes_l,bytes_r,skew_l,skew_r)=(0,0,0,1,1,0,0)_path=aligned_exact fns=BooleanBuffer::from_bitwise_binary_op tier=thorough timeout=240
 inst!(bb_bin_0_0_0_1_1_0_0, 10, bin_grid::<0, 0, 0, 1, 1, 0, 0>());
 // @unit name=bb_bin_7_7_1_1_1_0_0 props=C19 kind=bounded bound=grid_(ol,or,len,bytes_l,bytes_r,skew_l,skew_r)=(7,7,1,1,1,0,0)_path=aligned_suffix fns=BooleanBuffer::from_bitwise_binary_op tier=thorough timeout=240
 inst!(bb_bin_7_7_1_1_1_0_0, 10, bin_grid::<7, 7, 1, 1, 1, 0, 0>());
@@ -601,19 +601,19 @@ fn assign_grid<const OP: u8, const SHARED: bool, const OL: usize, const OR: usiz
 inst!(bb_and_assign_unique_3_5_12_3_3, 12, assign_grid::<0, false, 3, 5, 12, 3, 3>());
 // @unit name=bb_or_assign_unique_8_3_70_10_10 props=C19 kind=bounded bound=grid_(ol,or,len,bytes_l,bytes_r)=(8,3,70,10,10)_unique_owner fns=BooleanBuffer::bitwise_bin_op_assign,BooleanBuffer::bitor_assign timeout=400
 inst!(bb_or_assign_unique_8_3_70_10_10, 12, assign_grid::<1, false, 8, 3, 70, 10, 10>());
-// @unit name=bb_xor_assign_shared_3_3_70_16_16 props=C19 kind=bounded bound=grid_(ol,or,len,bytes_l,bytes_r)=(3,3,70,16,16)_shared_bytes fns=BooleanBuffer::bitwise_bin_op_assign,BooleanBuffer::bitxor_assign tier=thorough timeout=400 note=not_confirmed_under_load
+// @unit name=bb_xor_assign_shared_3_3_70_16_16 props=C19 kind=bounded bound=grid_(ol,or,len,bytes_l,bytes_r)=(3,3,70,16,16)_shared_bytes fns=BooleanBuffer::bitwise_bin_op_assign,BooleanBuffer::bitxor_assign timeout=400
 inst!(bb_xor_assign_shared_3_3_70_16_16, 12, assign_grid::<2, true, 3, 3, 70, 16, 16>());
-// @unit name=bb_and_assign_shared_3_5_12_3_3 props=C19 kind=bounded bound=grid_(ol,or,len,bytes_l,bytes_r)=(3,5,12,3,3)_shared_bytes fns=BooleanBuffer::bitwise_bin_op_assign,BooleanBuffer::bitand_assign tier=thorough timeout=400 note=not_confirmed_under_load
+// @unit name=bb_and_assign_shared_3_5_12_3_3 props=C19 kind=bounded bound=grid_(ol,or,len,bytes_l,bytes_r)=(3,5,12,3,3)_shared_bytes fns=BooleanBuffer::bitwise_bin_op_assign,BooleanBuffer::bitand_assign tier=thorough timeout=400
 inst!(bb_and_assign_shared_3_5_12_3_3, 12, assign_grid::<0, true, 3, 5, 12, 3, 3>());
 // @unit name=bb_xor_assign_unique_5_64_130_17_25 props=C19 kind=bounded bound=grid_(ol,or,len,bytes_l,bytes_r)=(5,64,130,17,25)_unique_owner fns=BooleanBuffer::bitwise_bin_op_assign,BooleanBuffer::bitxor_assign tier=thorough timeout=400
 inst!(bb_xor_assign_unique_5_64_130_17_25, 12, assign_grid::<2, false, 5, 64, 130, 17, 25>());
-// @unit name=bb_or_assign_unique_0_0_64_8_8 props=C19 kind=bounded bound=grid_(ol,or,len,bytes_l,bytes_r)=(0,0,64,8,8)_unique_owner fns=BooleanBuffer::bitwise_bin_op_assign,BooleanBuffer::bitor_assign tier=thorough timeout=400 note=not_confirmed_under_load
+// @unit name=bb_or_assign_unique_0_0_64_8_8 props=C19 kind=bounded bound=grid_(ol,or,len,bytes_l,bytes_r)=(0,0,64,8,8)_unique_owner fns=BooleanBuffer::bitwise_bin_op_assign,BooleanBuffer::bitor_assign tier=thorough timeout=400
 inst!(bb_or_assign_unique_0_0_64_8_8, 12, assign_grid::<1, false, 0, 0, 64, 8, 8>());
 // @unit name=bb_and_assign_unique_63_1_2_9_1 props=C19 kind=bounded bound=grid_(ol,or,len,bytes_l,bytes_r)=(63,1,2,9,1)_unique_owner fns=BooleanBuffer::bitwise_bin_op_assign,BooleanBuffer::bitand_assign tier=thorough timeout=400
 inst!(bb_and_assign_unique_63_1_2_9_1, 12, assign_grid::<0, false, 63, 1, 2, 9, 1>());
-// @unit name=bb_or_assign_shared_0_9_65_9_10 props=C19 kind=bounded bound=grid_(ol,or,len,bytes_l,bytes_r)=(0,9,65,9,10)_shared_bytes fns=BooleanBuffer::bitwise_bin_op_assign,BooleanBuffer::bitor_assign tier=thorough timeout=400 note=not_confirmed_under_load
+// @unit name=bb_or_assign_shared_0_9_65_9_10 props=C19 kind=bounded bound=grid_(ol,or,len,bytes_l,bytes_r)=(0,9,65,9,10)_shared_bytes fns=BooleanBuffer::bitwise_bin_op_assign,BooleanBuffer::bitor_assign tier=thorough timeout=400
 inst!(bb_or_assign_shared_0_9_65_9_10, 12, assign_grid::<1, true, 0, 9, 65, 9, 10>());
-// @unit name=bb_xor_assign_unique_1_0_7_1_1 props=C19 kind=bounded bound=grid_(ol,or,len,bytes_l,bytes_r)=(1,0,7,1,1)_unique_owner fns=BooleanBuffer::bitwise_bin_op_assign,BooleanBuffer::bitxor_assign tier=thorough timeout=400 note=not_confirmed_under_load
+// @unit name=bb_xor_assign_unique_1_0_7_1_1 props=C19 kind=bounded bound=grid_(ol,or,len,bytes_l,bytes_r)=(1,0,7,1,1)_unique_owner fns=BooleanBuffer::bitwise_bin_op_assign,BooleanBuffer::bitxor_assign tier=thorough timeout=400
 inst!(bb_xor_assign_unique_1_0_7_1_1, 12, assign_grid::<2, false, 1, 0, 7, 1, 1>());
 
 // =============================================================================================
@@ -701,7 +701,7 @@ fn collect_grid<const LEN: usize>() {
 }
 // Contract (C19) BooleanBuffer::collect_bool(len, f): length len, value i == f(i) for every i < len, f is
 // called exactly len times (each index in 0..len, never outside: the model array would panic).
-// @unit name=bb_collect_bool_0 props=C19,C01 kind=bounded bound=grid_len=0 fns=BooleanBuffer::collect_bool,MutableBuffer::collect_bool tier=thorough timeout=300 note=not_confirmed_under_load
+// @unit name=bb_collect_bool_0 props=C19,C01 kind=bounded bound=grid_len=0 fns=BooleanBuffer::collect_bool,MutableBuffer::collect_bool tier=thorough timeout=300
 inst!(bb_collect_bool_0, 66, collect_grid::<0>());
 // @unit name=bb_collect_bool_1 props=C19,C01 kind=bounded bound=grid_len=1 fns=BooleanBuffer::collect_bool,MutableBuffer::collect_bool tier=thorough timeout=300
 inst!(bb_collect_bool_1, 66, collect_grid::<1>());
@@ -736,7 +736,7 @@ fn from_bools_grid<const LEN: usize, const ITER: bool>() {
 }
 // Contract (C19/C01) BooleanBuffer::from(&[bool]) and FromIterator<bool>: length = number of items,
 // value i = i-th item.
-// @unit name=bb_from_slice_0 props=C19,C01 kind=bounded bound=grid_len=0 fns=BooleanBuffer::from tier=thorough timeout=300 note=not_confirmed_under_load
+// @unit name=bb_from_slice_0 props=C19,C01 kind=bounded bound=grid_len=0 fns=BooleanBuffer::from tier=thorough timeout=300
 inst!(bb_from_slice_0, 3, from_bools_grid::<0, false>());
 // @unit name=bb_from_slice_9 props=C19,C01 kind=bounded bound=grid_len=9 fns=BooleanBuffer::from timeout=300
 inst!(bb_from_slice_9, 12, from_bools_grid::<9, false>());
@@ -836,9 +836,9 @@ fn slices_grid<const OFF: usize, const LEN: usize, const N: usize>() {
 // Contract (C19) BooleanBuffer::set_slices yields, in order, the maximal runs [start, end) of true values:
 // every position inside a run is true, every position between runs (at least one), before the first
 // and after the last run is false.
-// @unit name=bb_slices_0_5 props=C19 kind=bounded bound=grid_(offset,len)=(0,5) fns=BooleanBuffer::set_slices tier=thorough timeout=1500 note=not_confirmed_under_load
+// @unit name=bb_slices_0_5 props=C19 kind=bounded bound=grid_(offset,len)=(0,5) fns=BooleanBuffer::set_slices tier=thorough timeout=1500
 inst!(bb_slices_0_5, 10, slices_grid::<0, 5, 2>());
-// @unit name=bb_slices_61_5 props=C19 kind=bounded bound=grid_(offset,len)=(61,5) fns=BooleanBuffer::set_slices tier=thorough timeout=1500 note=not_confirmed_under_load
+// @unit name=bb_slices_61_5 props=C19 kind=bounded bound=grid_(offset,len)=(61,5) fns=BooleanBuffer::set_slices tier=thorough timeout=1500
 inst!(bb_slices_61_5, 10, slices_grid::<61, 5, 10>());
 // @unit name=bb_slices_0_0 props=C19 kind=bounded bound=grid_(offset,len)=(0,0) fns=BooleanBuffer::set_slices tier=thorough timeout=1500
 inst!(bb_slices_0_0, 10, slices_grid::<0, 0, 2>());
@@ -861,26 +861,26 @@ fn chunks_grid<const OFF: usize, const LEN: usize, const N: usize>() {
     // the remainder holds the last len % 64 values in its low bits and is zero above them
     let r = bc.remainder_bits();
     assert!(((r >> j) & 1 == 1) == (j < LEN % 64 && bit(&a, OFF + 64 * (LEN / 64) + j)));
-    kani::cover!((r >> j) & 1 == 1);
+    kani::cover!(LEN % 64 == 0 || (r >> j) & 1 == 1);
     kani::cover!(LEN % 64 == 0 || ((r >> j) & 1 == 0 && j < LEN % 64));
     kani::cover!(j >= LEN % 64);
 }
 // Contract (C19) BooleanBuffer::bit_chunks(): a view of exactly the addressed bits: len/64 chunks, chunk k
 // bit j == value 64k+j; remainder_len == len % 64; remainder_bits bit j == value 64*(len/64)+j for
 // j < len % 64 and 0 above (bits after the range are symbolic and must not leak into the padding).
-// @unit name=bb_bit_chunks_3_70 props=C19 kind=bounded bound=grid_(offset,len,bytes)=(3,70,12) fns=BooleanBuffer::bit_chunks tier=thorough timeout=300 note=not_confirmed_under_load
+// @unit name=bb_bit_chunks_3_70 props=C19 kind=bounded bound=grid_(offset,len,bytes)=(3,70,12) fns=BooleanBuffer::bit_chunks timeout=300
 inst!(bb_bit_chunks_3_70, 12, chunks_grid::<3, 70, 12>());
-// @unit name=bb_bit_chunks_0_64 props=C19 kind=bounded bound=grid_(offset,len,bytes)=(0,64,10) fns=BooleanBuffer::bit_chunks tier=thorough timeout=300 note=not_confirmed_under_load
+// @unit name=bb_bit_chunks_0_64 props=C19 kind=bounded bound=grid_(offset,len,bytes)=(0,64,10) fns=BooleanBuffer::bit_chunks tier=thorough timeout=300
 inst!(bb_bit_chunks_0_64, 12, chunks_grid::<0, 64, 10>());
-// @unit name=bb_bit_chunks_0_0 props=C19 kind=bounded bound=grid_(offset,len,bytes)=(0,0,3) fns=BooleanBuffer::bit_chunks tier=thorough timeout=300 note=not_confirmed_under_load
+// @unit name=bb_bit_chunks_0_0 props=C19 kind=bounded bound=grid_(offset,len,bytes)=(0,0,3) fns=BooleanBuffer::bit_chunks tier=thorough timeout=300
 inst!(bb_bit_chunks_0_0, 12, chunks_grid::<0, 0, 3>());
-// @unit name=bb_bit_chunks_5_12 props=C19 kind=bounded bound=grid_(offset,len,bytes)=(5,12,5) fns=BooleanBuffer::bit_chunks tier=thorough timeout=300 note=not_confirmed_under_load
+// @unit name=bb_bit_chunks_5_12 props=C19 kind=bounded bound=grid_(offset,len,bytes)=(5,12,5) fns=BooleanBuffer::bit_chunks tier=thorough timeout=300
 inst!(bb_bit_chunks_5_12, 12, chunks_grid::<5, 12, 5>());
-// @unit name=bb_bit_chunks_63_129 props=C19 kind=bounded bound=grid_(offset,len,bytes)=(63,129,26) fns=BooleanBuffer::bit_chunks tier=thorough timeout=300 note=not_confirmed_under_load
+// @unit name=bb_bit_chunks_63_129 props=C19 kind=bounded bound=grid_(offset,len,bytes)=(63,129,26) fns=BooleanBuffer::bit_chunks tier=thorough timeout=300
 inst!(bb_bit_chunks_63_129, 12, chunks_grid::<63, 129, 26>());
-// @unit name=bb_bit_chunks_130_200 props=C19 kind=bounded bound=grid_(offset,len,bytes)=(130,200,44) fns=BooleanBuffer::bit_chunks tier=thorough timeout=300 note=not_confirmed_under_load
+// @unit name=bb_bit_chunks_130_200 props=C19 kind=bounded bound=grid_(offset,len,bytes)=(130,200,44) fns=BooleanBuffer::bit_chunks tier=thorough timeout=300
 inst!(bb_bit_chunks_130_200, 12, chunks_grid::<130, 200, 44>());
-// @unit name=bb_bit_chunks_1_128 props=C19 kind=bounded bound=grid_(offset,len,bytes)=(1,128,19) fns=BooleanBuffer::bit_chunks tier=thorough timeout=300 note=not_confirmed_under_load
+// @unit name=bb_bit_chunks_1_128 props=C19 kind=bounded bound=grid_(offset,len,bytes)=(1,128,19) fns=BooleanBuffer::bit_chunks tier=thorough timeout=300
 inst!(bb_bit_chunks_1_128, 12, chunks_grid::<1, 128, 19>());
 
 fn ubc_grid<const OFF: usize, const LEN: usize, const N: usize, const SK: usize>() {
@@ -893,35 +893,38 @@ fn ubc_grid<const OFF: usize, const LEN: usize, const N: usize, const SK: usize>
     let mut n = 0usize;
     for w in u.iter() { words[n] = w; n += 1; }
     assert!(lead < 64 && trail < 64 && lead + LEN + trail == 64 * n);
+    let (mut c1, mut c2) = (LEN == 0, LEN == 0);
     if n > 0 {
         let p: usize = kani::any();
         kani::assume(p < 64 * n);
         let b = (words[p / 64] >> (p % 64)) & 1 == 1;
         if p < lead || p >= lead + LEN { assert!(!b); } else { assert!(b == bit(&a, 8 * SK + OFF + p - lead)); }
-        kani::cover!(b);
-        kani::cover!(!b && p >= lead && p < lead + LEN);
+        c1 = b;
+        c2 = !b && p >= lead && p < lead + LEN;
     }
+    kani::cover!(c1);
+    kani::cover!(c2);
     kani::cover!(n == (lead + LEN + trail) / 64);
 }
 // Contract (C19) BooleanBuffer::unaligned_bit_chunks(): the words prefix, chunks.., suffix concatenated
 // are lead_padding zero bits, then exactly the len addressed values in order, then trailing_padding
 // zero bits (both paddings < 64, total a whole number of words); bits outside the range are symbolic
 // and appear nowhere.
-// @unit name=bb_unaligned_bit_chunks_3_12_2_0 props=C19 kind=bounded bound=grid_(offset,len,bytes,ptr_skew)=(3,12,2,0) fns=BooleanBuffer::unaligned_bit_chunks tier=thorough timeout=300 note=not_confirmed_under_load
+// @unit name=bb_unaligned_bit_chunks_3_12_2_0 props=C19 kind=bounded bound=grid_(offset,len,bytes,ptr_skew)=(3,12,2,0) fns=BooleanBuffer::unaligned_bit_chunks tier=thorough timeout=300
 inst!(bb_unaligned_bit_chunks_3_12_2_0, 12, ubc_grid::<3, 12, 2, 0>());
-// @unit name=bb_unaligned_bit_chunks_5_59_8_0 props=C19 kind=bounded bound=grid_(offset,len,bytes,ptr_skew)=(5,59,8,0) fns=BooleanBuffer::unaligned_bit_chunks tier=thorough timeout=300 note=not_confirmed_under_load
+// @unit name=bb_unaligned_bit_chunks_5_59_8_0 props=C19 kind=bounded bound=grid_(offset,len,bytes,ptr_skew)=(5,59,8,0) fns=BooleanBuffer::unaligned_bit_chunks tier=thorough timeout=300
 inst!(bb_unaligned_bit_chunks_5_59_8_0, 12, ubc_grid::<5, 59, 8, 0>());
-// @unit name=bb_unaligned_bit_chunks_1_64_9_0 props=C19 kind=bounded bound=grid_(offset,len,bytes,ptr_skew)=(1,64,9,0) fns=BooleanBuffer::unaligned_bit_chunks tier=thorough timeout=300 note=not_confirmed_under_load
+// @unit name=bb_unaligned_bit_chunks_1_64_9_0 props=C19 kind=bounded bound=grid_(offset,len,bytes,ptr_skew)=(1,64,9,0) fns=BooleanBuffer::unaligned_bit_chunks timeout=300
 inst!(bb_unaligned_bit_chunks_1_64_9_0, 12, ubc_grid::<1, 64, 9, 0>());
-// @unit name=bb_unaligned_bit_chunks_3_130_24_0 props=C19 kind=bounded bound=grid_(offset,len,bytes,ptr_skew)=(3,130,24,0) fns=BooleanBuffer::unaligned_bit_chunks tier=thorough timeout=300 note=not_confirmed_under_load
+// @unit name=bb_unaligned_bit_chunks_3_130_24_0 props=C19 kind=bounded bound=grid_(offset,len,bytes,ptr_skew)=(3,130,24,0) fns=BooleanBuffer::unaligned_bit_chunks timeout=300
 inst!(bb_unaligned_bit_chunks_3_130_24_0, 12, ubc_grid::<3, 130, 24, 0>());
-// @unit name=bb_unaligned_bit_chunks_13_140_22_2 props=C19 kind=bounded bound=grid_(offset,len,bytes,ptr_skew)=(13,140,22,2) fns=BooleanBuffer::unaligned_bit_chunks tier=thorough timeout=300 note=not_confirmed_under_load
+// @unit name=bb_unaligned_bit_chunks_13_140_22_2 props=C19 kind=bounded bound=grid_(offset,len,bytes,ptr_skew)=(13,140,22,2) fns=BooleanBuffer::unaligned_bit_chunks tier=thorough timeout=300
 inst!(bb_unaligned_bit_chunks_13_140_22_2, 12, ubc_grid::<13, 140, 22, 2>());
-// @unit name=bb_unaligned_bit_chunks_0_129_17_0 props=C19 kind=bounded bound=grid_(offset,len,bytes,ptr_skew)=(0,129,17,0) fns=BooleanBuffer::unaligned_bit_chunks tier=thorough timeout=300 note=not_confirmed_under_load
+// @unit name=bb_unaligned_bit_chunks_0_129_17_0 props=C19 kind=bounded bound=grid_(offset,len,bytes,ptr_skew)=(0,129,17,0) fns=BooleanBuffer::unaligned_bit_chunks tier=thorough timeout=300
 inst!(bb_unaligned_bit_chunks_0_129_17_0, 12, ubc_grid::<0, 129, 17, 0>());
-// @unit name=bb_unaligned_bit_chunks_0_0_1_0 props=C19 kind=bounded bound=grid_(offset,len,bytes,ptr_skew)=(0,0,1,0) fns=BooleanBuffer::unaligned_bit_chunks tier=thorough timeout=300 note=not_confirmed_under_load
+// @unit name=bb_unaligned_bit_chunks_0_0_1_0 props=C19 kind=bounded bound=grid_(offset,len,bytes,ptr_skew)=(0,0,1,0) fns=BooleanBuffer::unaligned_bit_chunks tier=thorough timeout=300
 inst!(bb_unaligned_bit_chunks_0_0_1_0, 12, ubc_grid::<0, 0, 1, 0>());
-// @unit name=bb_unaligned_bit_chunks_64_128_24_0 props=C19 kind=bounded bound=grid_(offset,len,bytes,ptr_skew)=(64,128,24,0) fns=BooleanBuffer::unaligned_bit_chunks tier=thorough timeout=300 note=not_confirmed_under_load
+// @unit name=bb_unaligned_bit_chunks_64_128_24_0 props=C19 kind=bounded bound=grid_(offset,len,bytes,ptr_skew)=(64,128,24,0) fns=BooleanBuffer::unaligned_bit_chunks tier=thorough timeout=300
 inst!(bb_unaligned_bit_chunks_64_128_24_0, 12, ubc_grid::<64, 128, 24, 0>());
 
 fn sliced_grid<const OFF: usize, const LEN: usize, const N: usize>() {
@@ -941,13 +944,13 @@ fn sliced_grid<const OFF: usize, const LEN: usize, const N: usize>() {
 // Contract (C19) BooleanBuffer::sliced(): a zero-offset bitmap of at least ceil(len/8) bytes whose bit i
 // is value i (copying when offset % 8 != 0, byte-slicing otherwise); value_unchecked(i) == value i
 // for i < len; inner() is the unsliced byte buffer.
-// @unit name=bb_sliced_3_70 props=C19 kind=bounded bound=grid_(offset,len,bytes)=(3,70,11) fns=BooleanBuffer::sliced,BooleanBuffer::value_unchecked,BooleanBuffer::inner tier=thorough timeout=300 note=not_confirmed_under_load
+// @unit name=bb_sliced_3_70 props=C19 kind=bounded bound=grid_(offset,len,bytes)=(3,70,11) fns=BooleanBuffer::sliced,BooleanBuffer::value_unchecked,BooleanBuffer::inner timeout=300
 inst!(bb_sliced_3_70, 12, sliced_grid::<3, 70, 11>());
-// @unit name=bb_sliced_8_20 props=C19 kind=bounded bound=grid_(offset,len,bytes)=(8,20,5) fns=BooleanBuffer::sliced,BooleanBuffer::value_unchecked,BooleanBuffer::inner tier=thorough timeout=300 note=not_confirmed_under_load
+// @unit name=bb_sliced_8_20 props=C19 kind=bounded bound=grid_(offset,len,bytes)=(8,20,5) fns=BooleanBuffer::sliced,BooleanBuffer::value_unchecked,BooleanBuffer::inner tier=thorough timeout=300
 inst!(bb_sliced_8_20, 12, sliced_grid::<8, 20, 5>());
-// @unit name=bb_sliced_0_64 props=C19 kind=bounded bound=grid_(offset,len,bytes)=(0,64,9) fns=BooleanBuffer::sliced,BooleanBuffer::value_unchecked,BooleanBuffer::inner tier=thorough timeout=300 note=not_confirmed_under_load
+// @unit name=bb_sliced_0_64 props=C19 kind=bounded bound=grid_(offset,len,bytes)=(0,64,9) fns=BooleanBuffer::sliced,BooleanBuffer::value_unchecked,BooleanBuffer::inner tier=thorough timeout=300
 inst!(bb_sliced_0_64, 12, sliced_grid::<0, 64, 9>());
-// @unit name=bb_sliced_65_130 props=C19 kind=bounded bound=grid_(offset,len,bytes)=(65,130,26) fns=BooleanBuffer::sliced,BooleanBuffer::value_unchecked,BooleanBuffer::inner tier=thorough timeout=300 note=not_confirmed_under_load
+// @unit name=bb_sliced_65_130 props=C19 kind=bounded bound=grid_(offset,len,bytes)=(65,130,26) fns=BooleanBuffer::sliced,BooleanBuffer::value_unchecked,BooleanBuffer::inner tier=thorough timeout=300
 inst!(bb_sliced_65_130, 12, sliced_grid::<65, 130, 26>());
 
 fn u32_grid<const OFF: usize, const LEN: usize, const N: usize>() {
@@ -981,7 +984,7 @@ fn u32_grid<const OFF: usize, const LEN: usize, const N: usize>() {
 }
 // Contract (C19) BooleanBuffer::set_indices_u32 yields exactly the positions of the true values, in
 // increasing order, as u32.
-// @unit name=bb_set_indices_u32_61_5 props=C19 kind=bounded bound=grid_(offset,len)=(61,5) fns=BooleanBuffer::set_indices_u32 tier=thorough timeout=900 note=not_confirmed_under_load
+// @unit name=bb_set_indices_u32_61_5 props=C19 kind=bounded bound=grid_(offset,len)=(61,5) fns=BooleanBuffer::set_indices_u32 tier=thorough timeout=900
 inst!(bb_set_indices_u32_61_5, 10, u32_grid::<61, 5, 10>());
-// @unit name=bb_set_indices_u32_0_6 props=C19 kind=bounded bound=grid_(offset,len)=(0,6) fns=BooleanBuffer::set_indices_u32 tier=thorough timeout=900 note=not_confirmed_under_load
+// @unit name=bb_set_indices_u32_0_6 props=C19 kind=bounded bound=grid_(offset,len)=(0,6) fns=BooleanBuffer::set_indices_u32 tier=thorough timeout=900
 inst!(bb_set_indices_u32_0_6, 10, u32_grid::<0, 6, 2>());
